@@ -1,11 +1,12 @@
-"""C01: see props/cluster.py (one recorded trace family, this property's own formulas in Trace_Cluster.tla)."""
-from props import cluster
+"""C01: see props/cluster.py (one recorded trace family, this property's own formulas in Trace_Cluster.tla); design level: the
+node-level instances MC_LH4* (props/specreplay.py) and the abstract safety argument LHAbstract.tla (props/abstract.py)."""
+from props import cluster, abstract
 
 PID = "C01"
 
 
 def run(tier, seed):
-    return cluster.simple_check(PID, tier, seed)
+    return cluster.simple_check(PID, tier, seed, extra=lambda rep, tier, seed: abstract.design(rep, tier))
 
 
 def replay(path, seed):
